@@ -1,7 +1,7 @@
 (** C04: from source text to the tree - the lexer reads back a space-separated rendering of the tokens. *)
 From Coq Require Import String Ascii.
 From Cel.Model Require Import Surface.
-From Cel.Proofs Require Import CompareProofs DurationRoundtrip ParserRoundtrip ParserFuel.
+From Cel.Proofs Require Import CompareProofs NumericProofs DurationRoundtrip ParserRoundtrip ParserFuel.
 From Coq Require Import Lia Arith.
 Open Scope nat_scope.
 
@@ -12,6 +12,9 @@ Definition tok_text (t : tk) : str :=
   | TAndAnd => $"&&" | TOrOr => $"||" | TLParen => $"(" | TRParen => $")" | TMinus => $"-" | TBang => $"!"
   | TQuestion => $"?" | TColon => $":" | TPlus => $"+" | TStar => $"*" | TSlash => $"/" | TPercent => $"%"
   | TIdent x => x
+  | TDot => $"." | TLBracket => $"[" | TRBracket => $"]" | TLBrace => $"{" | TRBrace => $"}" | TComma => $","
+  | TTrue => $"true" | TFalse => $"false" | TNull => $"null"
+  | TInt t => t | TUint t => t
   | _ => []
   end.
 
@@ -28,6 +31,12 @@ Definition simple_tok (t : tk) : bool :=
   | TEq | TNe | TIn | TLt | TLe | TGe | TGt | TAndAnd | TOrOr | TLParen | TRParen | TMinus | TBang
   | TQuestion | TColon | TPlus | TStar | TSlash | TPercent => true
   | TIdent x => ident_okb x
+  | TDot | TLBracket | TRBracket | TLBrace | TRBrace | TComma | TTrue | TFalse | TNull => true
+  | TInt t => all_digits t && match t with [] => false | _ => true end
+  | TUint t => match rev t with
+               | c :: rd => (c =? ch "u")%N && all_digits (rev rd) && match rd with [] => false | _ => true end
+               | [] => false
+               end
   | _ => false
   end.
 
@@ -81,9 +90,95 @@ Proof.
   apply Bool.negb_true_iff in H, H0, H1, H2. now rewrite H2, H1, H0, H.
 Qed.
 
+Lemma digit_nq c : is_digit c = true -> nq c = true.
+Proof. unfold is_digit, nq. intros H. lia. Qed.
+
+Lemma num_tok_int ds rest : all_digits ds = true -> ds <> [] ->
+  num_tok (ds ++ 32%N :: rest) = Some (NInt, length ds).
+Proof.
+  intros Hd Hne. unfold num_tok. rewrite (span_app_stop is_digit ds (32%N :: rest) Hd) by reflexivity.
+  destruct ds as [|d ds']; [congruence|]. cbn iota beta.
+  assert (Hx : match (d :: ds') ++ 32%N :: rest with
+               | z :: x :: r1 => ((z =? 48) && (x =? ch "x"))%N = false
+               | _ => True end).
+  { cbn [app]. destruct ds' as [|d2 ds'']; cbn [app].
+    - now rewrite Bool.andb_false_r.
+    - cbn [all_digits forallb] in Hd. apply andb_prop in Hd as [_ Hd]. apply andb_prop in Hd as [Hd _].
+      unfold is_digit in Hd. replace (d2 =? ch "x")%N with false by (cbn; lia). now rewrite Bool.andb_false_r. }
+  cbn [app] in *. destruct (ds' ++ 32%N :: rest) as [|x r1] eqn:E.
+  - destruct ds'; discriminate.
+  - rewrite Hx. change (32 =? 46)%N with false. change (exponent_len (32%N :: rest)) with (@None nat).
+    cbn [option_map]. cbv iota beta. reflexivity.
+Qed.
+
+Lemma num_tok_uint ds rest : all_digits ds = true -> ds <> [] ->
+  num_tok ((ds ++ [ch "u"]) ++ 32%N :: rest) = Some (NUint, S (length ds)).
+Proof.
+  intros Hd Hne. rewrite <- app_assoc. cbn [app]. unfold num_tok.
+  rewrite (span_app_stop is_digit ds (ch "u" :: 32%N :: rest) Hd) by reflexivity.
+  destruct ds as [|d ds']; [congruence|]. cbn iota beta.
+  assert (Hx : match (d :: ds') ++ ch "u" :: 32%N :: rest with
+               | z :: x :: r1 => ((z =? 48) && (x =? ch "x"))%N = false
+               | _ => True end).
+  { cbn [app]. destruct ds' as [|d2 ds'']; cbn [app].
+    - now rewrite Bool.andb_false_r.
+    - cbn [all_digits forallb] in Hd. apply andb_prop in Hd as [_ Hd]. apply andb_prop in Hd as [Hd _].
+      unfold is_digit in Hd. replace (d2 =? ch "x")%N with false by (cbn; lia). now rewrite Bool.andb_false_r. }
+  cbn [app] in *. destruct (ds' ++ ch "u" :: 32%N :: rest) as [|x r1] eqn:E.
+  - destruct ds'; discriminate.
+  - rewrite Hx. change (ch "u" =? 46)%N with false. change (exponent_len (ch "u" :: 32%N :: rest)) with (@None nat).
+    cbn [option_map]. cbv iota beta. change ((ch "u" =? ch "u")%N || (ch "u" =? ch "U")%N) with true. cbv iota.
+    replace (length (d :: ds') <? S (length (d :: ds'))) with true by (symmetry; apply Nat.ltb_lt; lia). reflexivity.
+Qed.
+
+Lemma digit_head_lex d s : is_digit d = true ->
+  bytes_tok_len (d :: s) = None /\ string_tok_len (d :: s) = None /\ is_ws d = false /\ is_ident_start d = false.
+Proof.
+  intros Hd. unfold is_digit in Hd. repeat split.
+  - unfold bytes_tok_len. replace ((d =? ch "b") || (d =? ch "B"))%N with false by (cbn; lia). reflexivity.
+  - apply stl_none; [unfold nq; lia|]. unfold is_rR. intros H. exfalso. cbn in H. lia.
+  - unfold is_ws. lia.
+  - unfold is_ident_start, is_letter. lia.
+Qed.
+
+Lemma lex_int ds rest : all_digits ds = true -> ds <> [] ->
+  lex_one (ds ++ 32%N :: rest) = Some (Some (TInt ds), 32%N :: rest).
+Proof.
+  intros Hd Hne. pose proof (num_tok_int ds rest Hd Hne) as Hn.
+  destruct ds as [|d ds']; [congruence|]. cbn [all_digits forallb] in Hd. apply andb_prop in Hd as [Hd0 Hd'].
+  destruct (digit_head_lex d (ds' ++ 32%N :: rest) Hd0) as (Hb & Hs & Hw & Hi).
+  unfold lex_one. cbn [app] in *. rewrite Hb, Hs, Hw, Hi, Hn.
+  change (d :: ds' ++ 32%N :: rest) with ((d :: ds') ++ 32%N :: rest).
+  rewrite firstn_app, skipn_app, firstn_all, skipn_all, Nat.sub_diag. cbn [firstn skipn app]. now rewrite app_nil_r.
+Qed.
+
+Lemma lex_uint ds rest : all_digits ds = true -> ds <> [] ->
+  lex_one ((ds ++ [ch "u"]) ++ 32%N :: rest) = Some (Some (TUint (ds ++ [ch "u"])), 32%N :: rest).
+Proof.
+  intros Hd Hne. pose proof (num_tok_uint ds rest Hd Hne) as Hn.
+  destruct ds as [|d ds']; [congruence|]. cbn [all_digits forallb] in Hd. apply andb_prop in Hd as [Hd0 Hd'].
+  destruct (digit_head_lex d ((ds' ++ [ch "u"]) ++ 32%N :: rest) Hd0) as (Hb & Hs & Hw & Hi).
+  unfold lex_one. cbn [app] in *. rewrite Hb, Hs, Hw, Hi, Hn.
+  change (d :: (ds' ++ [ch "u"]) ++ 32%N :: rest) with (((d :: ds') ++ [ch "u"]) ++ 32%N :: rest).
+  assert (L : S (length (d :: ds')) = length ((d :: ds') ++ [ch "u"])) by (rewrite app_length; cbn; lia).
+  rewrite L, firstn_app, skipn_app, firstn_all, skipn_all, Nat.sub_diag. cbn [firstn skipn app]. now rewrite app_nil_r.
+Qed.
+
+Lemma uint_text t : simple_tok (TUint t) = true -> exists ds, t = ds ++ [ch "u"] /\ all_digits ds = true /\ ds <> [].
+Proof.
+  cbn [simple_tok]. destruct (rev t) as [|c rd] eqn:E; [discriminate|]. intros H.
+  apply andb_prop in H as [H H3]. apply andb_prop in H as [H1 H2]. apply N.eqb_eq in H1. subst c.
+  exists (rev rd). split; [|split; [exact H2|]].
+  - rewrite <- (rev_involutive t), E. reflexivity.
+  - destruct rd; [discriminate|]. cbn [rev]. intros H. apply app_eq_nil in H as [_ H]. discriminate.
+Qed.
+
 Lemma lex_simple t rest : simple_tok t = true -> lex_one (tok_text t ++ 32%N :: rest) = Some (Some t, 32%N :: rest).
 Proof.
-  destruct t; try discriminate; intros H; try reflexivity. now apply lex_ident.
+  destruct t; try discriminate; intros H; try reflexivity.
+  - cbn [simple_tok tok_text] in *. apply andb_prop in H as [H1 H2]. apply lex_int; [exact H1|]. now destruct text0.
+  - destruct (uint_text _ H) as (ds & -> & Hd & Hne). cbn [tok_text]. now apply lex_uint.
+  - now apply lex_ident.
 Qed.
 
 Lemma lex_space rest : (match rest with c :: _ => is_ws c = false | [] => True end) ->
@@ -97,9 +192,15 @@ Qed.
 Lemma tok_text_head t : simple_tok t = true -> exists c r, tok_text t = c :: r /\ is_ws c = false.
 Proof.
   destruct t; try discriminate; intros H; try (eexists; eexists; split; reflexivity).
-  cbn [tok_text]. unfold simple_tok, ident_okb in H. destruct text0 as [|c r]; [discriminate|].
-  exists c, r. split; [reflexivity|]. repeat (apply andb_prop in H as [H ?]).
-  unfold is_ident_start, is_letter, is_ws in *. lia.
+  - cbn [tok_text simple_tok] in *. apply andb_prop in H as [H1 H2]. destruct text0 as [|c r]; [discriminate|].
+    exists c, r. split; [reflexivity|]. cbn [all_digits forallb] in H1. apply andb_prop in H1 as [H1 _].
+    unfold is_digit, is_ws in *. lia.
+  - destruct (uint_text _ H) as (ds & -> & Hd & Hne). cbn [tok_text]. destruct ds as [|c r]; [congruence|].
+    exists c, (r ++ [ch "u"]). split; [reflexivity|]. cbn [all_digits forallb] in Hd. apply andb_prop in Hd as [Hd _].
+    unfold is_digit, is_ws in *. lia.
+  - cbn [tok_text]. unfold simple_tok, ident_okb in H. destruct text0 as [|c r]; [discriminate|].
+    exists c, r. split; [reflexivity|]. repeat (apply andb_prop in H as [H ?]).
+    unfold is_ident_start, is_letter, is_ws in *. lia.
 Qed.
 
 Lemma text_head ts : Forall (fun t => simple_tok t = true) ts ->
@@ -137,8 +238,17 @@ Qed.
 
 (** ** The tokens of a rendered tree are simple *)
 Fixpoint ids_ok (t : st) : Prop :=
+  let all := (fix go (l : list st) : Prop := match l with [] => True | r :: l' => ids_ok r /\ go l' end) in
   match t with
   | SId x => ident_okb x = true
+  | SLit _ => True
+  | SSel a f => ids_ok a /\ ident_okb f = true
+  | SIdx a i => ids_ok a /\ ids_ok i
+  | SMCall a f args => ident_okb f = true /\ ids_ok a /\ all args
+  | SCall f args => ident_okb f = true /\ all args
+  | SLst es => all es
+  | SMap kvs => (fix go (l : list (st * st)) : Prop :=
+                   match l with [] => True | (k, v) :: l' => ids_ok k /\ ids_ok v /\ go l' end) kvs
   | SNot _ a | SNeg _ a | SParen a => ids_ok a
   | SMul _ a b | SAdd _ a b | SRel _ a b => ids_ok a /\ ids_ok b
   | SAnd a rs | SOr a rs =>
@@ -158,12 +268,63 @@ Qed.
 Lemma simple_repeat t n : simple_tok t = true -> Simple (repeat t n).
 Proof. intros H. induction n; cbn [repeat]; constructor; auto. Qed.
 
+Lemma simple_one t : simple_tok t = true -> Simple [t].
+Proof. intros H. constructor; [exact H|constructor]. Qed.
+Lemma simple_cons t ts : simple_tok t = true -> Simple ts -> Simple (t :: ts).
+Proof. intros H Hs. constructor; assumption. Qed.
+
+Lemma simple_commas l : Forall (fun a => Simple (raw a)) l -> Simple (commas l).
+Proof.
+  induction 1 as [|a l Ha Hl IH]; [constructor|]. cbn [commas]. apply simple_app; [exact Ha|].
+  destruct l; [constructor|]. apply simple_cons; [reflexivity|exact IH].
+Qed.
+Lemma simple_entries l : Forall (fun kv => Simple (raw (fst kv)) /\ Simple (raw (snd kv))) l -> Simple (entries_tk l).
+Proof.
+  induction 1 as [|[k v] l [Hk Hv] Hl IH]; [constructor|]. cbn [entries_tk fst snd] in *.
+  apply simple_app; [exact Hk|]. apply simple_app; [now apply simple_one|]. apply simple_app; [exact Hv|].
+  destruct l; [constructor|]. apply simple_cons; [reflexivity|exact IH].
+Qed.
+
+Lemma simple_lit l : wf_lit l = true -> simple_tok (lit_tk l) = true.
+Proof.
+  destruct l as [z|z|[]|]; cbn [wf_lit lit_tk simple_tok]; intros W; try reflexivity.
+  - apply andb_prop in W as [W0 _]. destruct (nat_digits_ok z ltac:(lia)) as (_ & H2 & H3).
+    rewrite H2. now destruct (nat_digits z).
+  - assert (Hz : (0 <= z)%Z) by (unfold in_u64 in W; lia).
+    destruct (nat_digits_ok z Hz) as (_ & H2 & H3).
+    rewrite rev_app_distr. cbn [rev app]. rewrite rev_involutive, H2, N.eqb_refl. cbn [andb].
+    destruct (nat_digits z) as [|c r] eqn:E; [congruence|]. cbn [rev]. now destruct (rev r).
+Qed.
+
 Lemma raw_simple t : wf_st t -> ids_ok t -> Simple (raw t).
 Proof.
   induction t using st_ind'; cbn [wf_st ids_ok]; intros W I.
   - constructor; [exact I|constructor].
+  - cbn [raw]. apply simple_one. now apply simple_lit.
+  - destruct I as [Ia If]. cbn [raw]. fold (tk_at 7 t). apply simple_app; [apply simple_tk_at; auto|].
+    apply simple_cons; [reflexivity|]. now apply simple_one.
+  - destruct W as [Wa Wi]. destruct I as [Ia Ii]. cbn [raw]. fold (tk_at 7 t1).
+    apply simple_app; [apply simple_tk_at; auto|]. apply simple_app; [now apply simple_one|].
+    apply simple_app; [auto|now apply simple_one].
+  - destruct W as (_ & Wa & Wargs). destruct I as (If & Ia & Iargs). rewrite raw_mcall.
+    apply simple_app; [apply simple_tk_at; auto|].
+    apply simple_cons; [reflexivity|]. apply simple_cons; [exact If|]. apply simple_cons; [reflexivity|].
+    apply simple_app; [|now apply simple_one]. apply simple_commas.
+    induction H as [|r rs Hr _ IH]; [constructor|]. destruct Wargs as [Wr Wrs]. destruct Iargs as [Ir Irs].
+    constructor; [now apply Hr|now apply IH].
+  - destruct W as (_ & Wargs). destruct I as (If & Iargs). rewrite raw_call.
+    apply simple_cons; [exact If|]. apply simple_cons; [reflexivity|].
+    apply simple_app; [|now apply simple_one]. apply simple_commas.
+    induction H as [|r rs Hr _ IH]; [constructor|]. destruct Wargs as [Wr Wrs]. destruct Iargs as [Ir Irs].
+    constructor; [now apply Hr|now apply IH].
+  - rewrite raw_list. apply simple_cons; [reflexivity|]. apply simple_app; [|now apply simple_one]. apply simple_commas.
+    induction H as [|r rs Hr _ IH]; [constructor|]. destruct W as [Wr Wrs]. destruct I as [Ir Irs].
+    constructor; [now apply Hr|now apply IH].
+  - rewrite raw_map. apply simple_cons; [reflexivity|]. apply simple_app; [|now apply simple_one]. apply simple_entries.
+    induction H as [|[k v] l [Hk Hv] _ IH]; [constructor|]. destruct W as (Wk & Wv & Wl). destruct I as (Ik & Iv & Il).
+    constructor; [split; [now apply Hk|now apply Hv]|now apply IH].
   - cbn [raw]. fold (tk_at 7 t). apply simple_app; [now apply (simple_repeat TBang)|]. apply simple_tk_at. now apply IHt.
-  - cbn [raw]. fold (tk_at 7 t). apply simple_app; [now apply (simple_repeat TMinus)|]. apply simple_tk_at. now apply IHt.
+  - destruct W as [W _]. cbn [raw]. fold (tk_at 7 t). apply simple_app; [now apply (simple_repeat TMinus)|]. apply simple_tk_at. now apply IHt.
   - destruct W as (Wo & Wa & Wb). destruct I as [Ia Ib]. cbn [raw]. fold (tk_at 5 t1). fold (tk_at 6 t2).
     apply simple_app; [apply simple_tk_at; auto|]. apply simple_app; [|apply simple_tk_at; auto].
     constructor; [|constructor]. destruct op; cbn in Wo; try congruence; reflexivity.
